@@ -42,7 +42,7 @@ def oracle_spec(ps, theta_key="theta"):
     if k in ("bern_joint", "bern_elem"):
         return {"kind": "bern", "par": ps["par"], "theta": ps[theta_key], "const": ps.get("const") or {}}
     if k in ("onehot", "cat"):
-        return {"kind": "cat", "par": ps["par"], "theta": ps[theta_key]}
+        return {"kind": "cat", "par": ps["par"], "theta": ps[theta_key], "masked": ps.get("masked") or []}
     if k == "srswor":
         return {"kind": "srswor", "T": ps["T"], "L": ps["L"], "out": ps["out"]}
     raise ValueError(k)
@@ -178,7 +178,10 @@ def build_dist(ps, dtype, theta_key="theta", theta=None):
     if k == "srswor":
         return D.SimpleRandomSamplingWithoutReplacement(ps["L"], ps["T"], ps["out"], validate_args=va), None
     if theta is None:
-        theta = torch.tensor(ps[theta_key], dtype=dtype, requires_grad=True)
+        vals = list(ps[theta_key])
+        for i in ps.get("masked") or []:  # don't-care classes: logit exactly -inf / probability exactly 0
+            vals[int(i)] = -math.inf if ps["par"] == "logits" else 0.0
+        theta = torch.tensor(vals, dtype=dtype, requires_grad=True)
     if k in ("bern_joint", "bern_elem"):
         const = ps.get("const") or {}
         if const:
@@ -293,6 +296,8 @@ def cfg_sig(cfg, **kw):
         s["func_returns_view"] = cfg["f"]["how"]
     if cfg["prop"].get("validate", True) is False:
         s["validate_args"] = False
+    if cfg["prop"].get("masked"):
+        s["masked_" + cfg["prop"]["par"]] = True
     s.update(kw)
     return s
 
@@ -460,7 +465,15 @@ def run_tree(ctx, cfg):
             blocks.append(("proposal", [0.0] * len(ps["theta"])))
     elif ps["kind"] != "srswor":
         blocks.append(("proposal", exp_grad))
+    # a class with probability exactly 0 (probs= parameterisation) sits on the boundary of the
+    # parameter space: no score-function estimator can see d/d(that probability); only the
+    # coordinates of the live classes are compared there (a -inf logit has no influence at all and
+    # is compared: exact gradient 0)
+    skip = {int(i) for i in (ps.get("masked") or [])} if ps.get("par") == "probs" else set()
     for (name, want), got in zip(blocks, Egrad):
+        if len(want) == len(got) and skip:
+            want = [w for j, w in enumerate(want) if j not in skip]
+            got = [g for j, g in enumerate(got) if j not in skip]
         if len(want) != len(got) or any(not close(a, b) for a, b in zip(want, got)):
             ctx.violation(cfg_sig(cfg, symptom="biased-gradient", wrt=name, cv=bool(cs), N=N),
                           case, {"expected": want, "observed": got, "paths": stats["paths"]})
@@ -563,6 +576,10 @@ def run_seq(ctx, cfg):
     ctx.key(("seq", cid), nontrivial=len(support) > 1)
     ctx.traces += 1
     ctx.count("trees_seq")
+    skip = {int(i) for i in (ps.get("masked") or [])} if ps.get("par") == "probs" else set()
+    if skip:  # probability exactly 0: boundary coordinate, see run_tree
+        exp_grad = [w for j, w in enumerate(exp_grad) if j not in skip]
+        Egrad = [[g for j, g in enumerate(eg or []) if j not in skip] for eg in Egrad]
     for k in range(K):
         if any(not close(a, b) for a, b in zip(Eval[k], exp_val)):
             ctx.violation(cfg_sig(cfg, symptom="biased-value", order=order, call=k, cv=bool(cs), N=N), case,
